@@ -69,6 +69,8 @@ func sessionCatalogue(tier string) []sessCfg {
 		{"ecdsa-signing", 5, 2, []int{0, 2, 4}, 0, 0, "vendored", 1},
 		{"ecdsa-signing", 5, 2, []int{0, 1, 2, 3}, 0, 0, "vendored", 2},
 		{"ecdsa-resharing", 5, 2, []int{0, 1, 3}, 3, 1, "vendored", 8},
+		// the smallest committees: every "everybody else" address list has exactly one entry
+		{"ecdsa-resharing", 3, 1, []int{0, 2}, 2, 1, "seeded", 6},
 	}
 	if tier == "thorough" {
 		cs = append(cs,
